@@ -2,5 +2,6 @@ SPECIFICATION TraceSpec
 CONSTANTS
   Calibrate = TRUE
   TolScale = "1"
+  TolExact = "300"
 POSTCONDITION Accepted
 CHECK_DEADLOCK FALSE
